@@ -829,7 +829,7 @@ class MiniEval:
 
     def call_def(self, fnode, args: list, kwargs: dict, closure_env: Dict[str, Any]):
         """interpret a FunctionDef on evaluated arguments (inlined helper / closure / lambda)"""
-        if self.depth > 12:
+        if self.depth > 60:
             raise AnalysisError(f"{self.where}: helper inlining depth exceeded at {getattr(fnode, 'name', '?')}")
         sub = MiniEval(self.oracle, self.where, self.permissive, self.resolver)
         sub.isinstance_hook, sub.truth_hook, sub.ctor_fields, sub.expr_compare = self.isinstance_hook, self.truth_hook, self.ctor_fields, self.expr_compare
